@@ -391,6 +391,28 @@ def routEfficiency {n} (tr : Transform) (A : AMat Rat n) : Option Ext × AMat Ex
   let SPL := (floyd (lenMat tr A)).D
   (meanInvOff SPL, AMat.ofFn fun i j => if i = j then .fin 0 else (SPL.get i j).inv)
 
+/-! ### rout_efficiency: the local part `Eloc` -/
+
+/-- `Gu, = np.where(np.logical_or(D[u, :], D[:, u].T))` -/
+def routNbrs {n} (A : AMat Rat n) (u : Fin n) : List (Fin n) :=
+  (List.finRange n).filter fun j => decide (A.get u j ≠ 0 ∨ A.get j u ≠ 0)
+
+/-- `D[Gu, :][:, Gu]` -/
+def subMatV {n} (A : AMat Rat n) (V : List (Fin n)) : AMat Rat V.length :=
+  AMat.ofFn fun a b => A.get (V.get a) (V.get b)
+
+/-- `e = 1 / e; np.fill_diagonal(e, 0); np.sum(e) / nGu` for the shortest-path matrix `e` of the neighbourhood sub-graph;
+`none` = 0/0 (a node without neighbours) -/
+def routLocalOf {k} (SPL : AMat Ext k) : Option Ext :=
+  if k = 0 then none else
+    match sumExt ((offDiag k).map fun p => (SPL.get p.1 p.2).inv) with
+    | .fin s => some (.fin (s / (k : Nat)))
+    | .inf => some .inf
+
+/-- `Eloc[u]` of `rout_efficiency(D, transform)` -/
+def routLocalNode {n} (tr : Transform) (A : AMat Rat n) (u : Fin n) : Option Ext :=
+  routLocalOf (floyd (lenMat tr (subMatV A (routNbrs A u)))).D
+
 /-! ## navigation_wu -/
 
 structure NavRes (n : Nat) where
@@ -523,7 +545,8 @@ def step (line : String) : String :=
       let A ← parseMatWith parseRat n (← lookup kv "A")
       let tr ← parseTransform (lookup kv "transform")
       let (g, E) := routEfficiency tr A
-      some s!"GE={showOptExt g} Erout={showMatWith Ext.str E}"
+      let eloc := ",".intercalate ((List.finRange n).map fun u => showOptExt (routLocalNode tr A u))
+      some s!"GE={showOptExt g} Erout={showMatWith Ext.str E} Eloc={if n = 0 then "-" else eloc}"
     | "nav" =>
       let L ← parseMatWith parseRat n (← lookup kv "L")
       let Dm ← parseMatWith parseRat n (← lookup kv "D")
